@@ -140,6 +140,8 @@ Record obs := {
   o_iso : bool;        (* compare.isomorphic(g1, g2) *)
   o_toiso : bool;      (* to_isomorphic(g1) == to_isomorphic(g2) *)
   o_caneq : bool;      (* set(to_canonical_graph(g1)) == set(to_canonical_graph(g2)) *)
+  o_alt1 : bool;       (* compare.isomorphic(g1, g2) in a process with another PYTHONHASHSEED *)
+  o_alt2 : bool;       (* ... and with a third one (set order was part of the repaired defect FC14b) *)
   o_cg1 : graph;       (* to_canonical_graph(g1); canonical labels numbered per case *)
   o_cg2 : graph;
   o_both : graph;      (* graph_diff(g1, g2) *)
@@ -161,27 +163,10 @@ Definition leak1 (g : graph) : option N :=
   | _ => None
   end.
 
-(* Finding FC14b: the automorphism pruning of _TripleCanonicalizer._traces is
-   unsound (_create_generator pairs two experimental colourings position by
-   position without checking that the pairing is an automorphism), so on graphs
-   with repeated / mixed symmetric parts the "canonical" form depends on labels
-   and set order: isomorphic graphs are reported non-isomorphic for some
-   labellings and not for others.  No faithful model exists short of modelling
-   Python's set order; the trigger is therefore the literal recorded witness
-   (a directed 4-cycle plus a self-loop, two labellings), for which the model
-   records rdflib's answer. *)
-Definition fc14b_g1 : graph :=
-  [(Blank 0, Const 3, Blank 3); (Blank 1, Const 3, Blank 2); (Blank 3, Const 3, Blank 1);
-   (Blank 2, Const 3, Blank 0); (Blank 4, Const 3, Blank 4)]%N.
-Definition fc14b_g2 : graph :=
-  [(Blank 20, Const 3, Blank 23); (Blank 23, Const 3, Blank 24); (Blank 24, Const 3, Blank 21);
-   (Blank 22, Const 3, Blank 22); (Blank 21, Const 3, Blank 20)]%N.
-Definition graph_eqb : graph -> graph -> bool := list_eqb triple_eqb.
-
 Definition kf (c : case) : N :=
   match leak1 (c_g1 c), leak1 (c_g2 c) with
   | Some p1, Some p2 => if N.eqb p1 p2 then 0%N else 1%N
-  | _, _ => if graph_eqb (c_g1 c) fc14b_g1 && graph_eqb (c_g2 c) fc14b_g2 then 2%N else 0%N
+  | _, _ => 0%N
   end.
 
 Definition maxblank (g : graph) : N := fold_left N.max (blanks g) 0%N.
@@ -197,7 +182,7 @@ Definition model_obs (c : case) : obs :=
   let i := iso_dec g1 g2 && N.eqb (kf c) 0 in
   let cg1 := g1 in
   let cg2 := if i then g1 else shift_g (N.succ (maxblank g1)) g2 in
-  {| o_iso := i; o_toiso := i; o_caneq := i;
+  {| o_iso := i; o_toiso := i; o_caneq := i; o_alt1 := i; o_alt2 := i;
      o_cg1 := cg1; o_cg2 := cg2;
      o_both := g_inter cg1 cg2; o_first := g_diff cg1 cg2; o_second := g_diff cg2 cg1;
      o_sk := g1 |}.
@@ -208,6 +193,7 @@ Definition isnil (g : graph) : bool := match g with [] => true | _ => false end.
    canonical graphs are relabellings of the inputs is the checker's business) *)
 Definition obs_eqb (a b : obs) : bool :=
   Bool.eqb (o_iso a) (o_iso b) && Bool.eqb (o_toiso a) (o_toiso b) && Bool.eqb (o_caneq a) (o_caneq b)
+  && Bool.eqb (o_alt1 a) (o_alt1 b) && Bool.eqb (o_alt2 a) (o_alt2 b)
   && (if o_iso a then Nat.eqb (length (o_both a)) (length (o_both b))
                       && Bool.eqb (isnil (o_first a)) (isnil (o_first b))
                       && Bool.eqb (isnil (o_second a)) (isnil (o_second b))
@@ -218,7 +204,8 @@ Definition obs_eqb (a b : obs) : bool :=
    [iso_dec] (= iso) and the set operators only. *)
 Definition spec_verdicts (c : case) (o : obs) : bool :=
   let i := iso_dec (c_g1 c) (c_g2 c) in
-  Bool.eqb (o_iso o) i && Bool.eqb (o_toiso o) i && Bool.eqb (o_caneq o) i.
+  Bool.eqb (o_iso o) i && Bool.eqb (o_toiso o) i && Bool.eqb (o_caneq o) i
+  && Bool.eqb (o_alt1 o) i && Bool.eqb (o_alt2 o) i.
 
 Definition spec_canon (c : case) (o : obs) : bool :=
   iso_dec (o_cg1 o) (c_g1 c) && iso_dec (o_cg2 o) (c_g2 c)
